@@ -297,6 +297,7 @@ def make_session(M, ch, rng, sysd, mats_shared, sid, st, reuse=None, pre_use=Fal
         s.gen, s.d, s.v = s.ts.generator(nt, F0.copy(), **s.kw)
     s.col0 = (s.d[:, 0].copy(), s.v[:, 0].copy())
     s.sent_any = False
+    s.sent_cols = set()
     s.ops = []
     s.maxerr = 0.0
     s.prev_kind = None
@@ -422,9 +423,17 @@ def op_send(M, ch, tr, st, rng, s, other, kind, buffer_reuse, closed_loop):
         pass
     if kind == "f2x_probe":
         return op_f2x(M, ch, tr, st, rng, s, where)
+    stored = False
     if kind == "redo" and ch.flip(1, 3, "redo_same_force"):
         f = s.Fm[:, s.last].real.copy()
+        stored = True
         st.fault("redo_same_force")
+    elif kind in ("jump_back", "advance") and i in s.sent_cols and not s.sys.cplx and ch.flip(1, 3, "resend_stored_force"):
+        # rewind / replay with exactly the force that step already holds (a client that only
+        # wants to go back and march again): bit-identical to the stored column
+        f = s.Fm[:, i].real.copy()
+        stored = True
+        st.fault("resend_stored_force")
     elif closed_loop and kind != "addon" and ch.flip(2, 3, "closed_loop"):
         f = closed_loop_force(ch, rng, s, other, i if i > 0 else s.last + 1)
         st.fault("closed_loop_force")
@@ -442,6 +451,8 @@ def op_send(M, ch, tr, st, rng, s, other, kind, buffer_reuse, closed_loop):
     # more than C08 states (false alarm met in round 2, DESIGN 11.4); lists are outside the
     # documented "1d ndarray".
     fform = ch.weighted([12, 2], "force_form") if not s.sys.cplx else 0
+    if stored:
+        fform = 0  # re-sent exactly as stored
     if fform == 1:
         f = np.round(f)
     # model update (the rules of the docstring)
@@ -485,6 +496,8 @@ def op_send(M, ch, tr, st, rng, s, other, kind, buffer_reuse, closed_loop):
     s.prev_kind = kind
     s.last = new_last
     s.sent_any = True
+    if i > 0:
+        s.sent_cols.add(i)
     check_after_send(s, where)
     tr.ev("state", s.id, s.last, s.d[:, s.last], s.v[:, s.last])
 
@@ -706,5 +719,5 @@ EXPECTED_FAULTS = [
     "redo_same_force", "redo_new_force", "jump_back_1", "jump_back_far", "addon", "addon_then_advance", "addon_then_redo",
     "redo_then_advance", "addon_order0", "buffer_reuse", "closed_loop_force", "two_sessions_interleaved", "nt_1", "rf_only",
     "rb_only", "static_ic", "complex_coefficients", "f2x_probe", "addon_twice", "instance_reused", "same_instance_tsolve",
-    "same_instance_fsolve", "long_session", "force_int",
+    "same_instance_fsolve", "long_session", "force_int", "resend_stored_force",
 ]
